@@ -319,6 +319,11 @@ pub fn check_twin(d: &Driver, out: &mut Vec<Violation>) {
         if a != b {
             out.push(v("twin:scan", format!("scan blob tree {a:?} vs standard tree {b:?} (snapshots {sa}/{sb})")));
         }
+        let a = oracles::collect_fwd(d.t().prefix(d.cfg.keys[0][..1].to_vec(), sa, None));
+        let b = oracles::collect_fwd(tw.t().prefix(d.cfg.keys[0][..1].to_vec(), sb, None));
+        if a != b {
+            out.push(v("twin:prefix", format!("prefix scan blob tree {a:?} vs standard tree {b:?} (snapshots {sa}/{sb})")));
+        }
         let a = oracles::scan_rev(d.t(), sa);
         let b = oracles::scan_rev(tw.t(), sb);
         if a != b {
